@@ -244,6 +244,28 @@ fn check(run: &mut Run, sub: &Subject, f: &PreprocessingFn, text: &str, g: bool,
 /// `srng::seed_table` with progress ticks (2^17 entries take seconds on a loaded machine): for every
 /// bit vector v of length n the smallest seed whose first n decisions at p = 1/2 are v (bit i = i-th
 /// draw below 1/2)
+/// The function returned by `preprocessing(..)` is an object that lives as long as the loader: its
+/// result for (text, seed) must not depend on what it was called with before. One case: a fresh
+/// function object is called with `first` and then with `second`; the second result must equal what
+/// another fresh object returns for `second` alone.
+#[allow(clippy::too_many_arguments)]
+fn check_history(run: &mut Run, first: &str, second: &str, g: bool, pi: f64, pd: f64, seed1: u64, seed2: u64) {
+    run.evaluations += 1;
+    run.nontrivial += 1;
+    let case = || json!({"history_phase": true, "first": first, "second": second, "use_graphemes": g, "insert_p": pi, "delete_p": pd, "seed_first": seed1, "seed_second": seed2});
+    run.sample(case);
+    let call = |f: &PreprocessingFn, text: &str, seed: u64| catch(|| f(TrainData::new(text.to_string(), None), TextDataInfo { seed, ..Default::default() })).map(|r| r.map(|(item, _)| (item.verif_input().to_string(), item.verif_target().to_string())).map_err(|e| e.to_string()));
+    let shared = corruption(pi, pd, g);
+    run.calls += 3;
+    let _ = call(&shared, first, seed1);
+    let after = call(&shared, second, seed2);
+    let alone = call(&corruption(pi, pd, g), second, seed2);
+    run.compared += 1;
+    if after != alone {
+        run.violation("result-independent-of-earlier-calls", "", case(), format!("after an earlier call on {first:?} the same function object turns {second:?} into {after:?}; a fresh one gives {alone:?}"));
+    }
+}
+
 fn seed_table(run: &Run, n: usize) -> Vec<u64> {
     let total = 1usize << n;
     let mut table = vec![u64::MAX; total];
@@ -283,6 +305,10 @@ fn main() {
     let sub = Subject { tasks: [task(false), task(true)] };
     if let Some(c) = run.replay_case() {
         let (g, pi, pd) = (c["use_graphemes"].as_bool().unwrap(), c["insert_p"].as_f64().unwrap(), c["delete_p"].as_f64().unwrap());
+        if c.get("history_phase").is_some() {
+            check_history(&mut run, c["first"].as_str().unwrap(), c["second"].as_str().unwrap(), g, pi, pd, c["seed_first"].as_u64().unwrap(), c["seed_second"].as_u64().unwrap());
+            run.finish();
+        }
         let f = corruption(pi, pd, g);
         // a violated determinism clause shows only with some probability per pair of calls: repeat
         // the case until a violation shows (64 times at most)
@@ -333,6 +359,29 @@ fn main() {
     );
     run.assumptions.push("ChaCha8Rng::seed_from_u64(seed) followed by random::<f64>() < p is the decision procedure of corrupt_whitespace (public construction); not trusted blindly: a unit whose decision vectors do not reach every clean re-spacing is reported as a machinery error".into());
 
+    // history phase: every ordered pair of the short clean texts (one unit per first text)
+    {
+        let texts: Vec<&Unit> = all.iter().filter(|u| !u.probe && !u.g && refs::chars(&u.text, false).len() <= run.pick(5, 6)).collect();
+        run.bounds.insert("history_phase".into(), json!(format!("all ordered pairs of the {} clean texts with at most {} code points x use_graphemes x p in {{(1/2,1/2), (0,1), (1,0)}} x seeds {{0, 1}} for the second call", texts.len(), run.pick(5, 6))));
+        let base_h = all.len() + tu_verif::enumerate::threshold_lengths(run.pick(8, 10)).len();
+        for (i, a) in texts.iter().enumerate() {
+            if !run.unit((base_h + i) as u64) {
+                continue;
+            }
+            for b in &texts {
+                for g in [false, true] {
+                    if !refs::is_clean(&a.text, g) || !refs::is_clean(&b.text, g) {
+                        continue;
+                    }
+                    for (pi, pd) in [(0.5, 0.5), (0.0, 1.0), (1.0, 0.0)] {
+                        for seed2 in [0u64, 1] {
+                            check_history(&mut run, &a.text, &b.text, g, pi, pd, 0, seed2);
+                        }
+                    }
+                }
+            }
+        }
+    }
     // long texts: character counts around the powers of two a size threshold would sit at. The decision
     // vectors of such texts cannot be enumerated; every clause is an invariant of any outcome, so the
     // long family uses the probability pairs and seeds of the "other probabilities" part
